@@ -511,7 +511,11 @@ def run_case(ctx, key, m, rng, fam, ssz, subname, full=True):
                     (float(rng.choice([-1, 1]) * rng.uniform(1e6, 2e6)), float(rng.choice([-1, 1]) * rng.uniform(1e6, 2e6))))
     mask = aa.Mask2D(mask=m.copy(), pixel_scales=geometry[0], origin=geometry[1])
     uniform = subname.startswith("uniform")
-    sub = int(ssz[0]) if (uniform and rng.random() < 0.5) else aa.Array2D(values=ssz.copy(), mask=mask)
+    sub_dt = np.int64
+    if not uniform and zlib_crc(key) % 3 == 1:
+        sub_dt = [np.int8, np.uint8, np.int16, np.int32][zlib_crc(key) % 4]       # the map held in a compact integer type
+        subname = subname + ":" + np.dtype(sub_dt).name
+    sub = int(ssz[0]) if (uniform and rng.random() < 0.5) else aa.Array2D(values=ssz.astype(sub_dt), mask=mask)
     starts, pos = sub_layout(m, ssz)
     image_grid = to_scaled(pos, m.shape, geometry[0], geometry[1])
     br = aa.BorderRelocator(mask=mask, sub_size=sub)
